@@ -107,3 +107,8 @@ def run(ctx, fb, cfg):
     check_hidden(ctx, lib, R + "K3.hidden-variables")
     for mod in ("plusfd", "minusfd", "timesfd"):
         fdrules.check_arith_propagator(ctx, lib, R + "K7c.sound-bounds", mod, what="bounds")
+    # a value stored twice in a domain is labelled twice: the representation invariant of
+    # FiniteDomain::Sparse (strictly increasing values) is shared with C18
+    import C18
+
+    C18.check_sparse_sites(ctx, lib, R + "K3.no-duplicate-values")
